@@ -1,10 +1,18 @@
 //! Catalogue assembly.
 use crate::scen::Registry;
 
+pub mod cluster;
+pub mod core_ds;
 pub mod kmeans;
+pub mod reduce_prep;
+pub mod svm_trees;
 
 pub fn registry() -> Registry {
     let mut r = Registry::default();
     kmeans::register(&mut r);
+    core_ds::register(&mut r);
+    cluster::register(&mut r);
+    reduce_prep::register(&mut r);
+    svm_trees::register(&mut r);
     r
 }
